@@ -98,6 +98,14 @@ def run(ctx):
         for mode in ("api", "main", "file"):
             runs.append(["files", mode, json.dumps(o2), json.dumps(tree)])
             meta.append(("single-outdir", t, mode, files, dots, o2, one))
+    # entry conditions of the directory walk: missing input, empty input directory, a FILE where the output directory should be
+    for mode in ("api", "main"):
+        for extra, tr in (({"input_missing": True}, [["a.cfg", b64("password x1secret\n"), {}]]), ({}, [["only-a-dir", None, {}]]), ({"out_is_file": True}, [["a.cfg", b64("password x1secret\n"), {}]])):
+            o3 = dict(pwd=True, salt="s", b4=8, b6=8, hostbits=8, **extra)
+            if not extra:
+                tr = []
+            runs.append(["files", mode, json.dumps(o3), json.dumps(tr)])
+            meta.append(("refused", 0, mode, {}, {}, o3, sorted(extra) or ["empty_input"]))
     sec = {"a.cfg": "username alice password AlicePw1\nsnmp-server community AliceComm RO\n", "site/c.cfg": "username carol password CarolPw3\nenable password CarolEn4\n"}
     late = [["b.cfg", b64(b"username bob password BobPw2\nsnmp-server community BobComm RW\n" + b"! filler line\n" * 1500 + b"\xff\xfe broken\n"), {}]]
     stree = [[r, b64(c), {}] for r, c in sec.items()]
@@ -155,6 +163,13 @@ def run(ctx):
                 ctx.fail("the failed file %s is not reported in an ERROR record" % name, {"opts": opts}, r["errors"], label="impl")
             if mode == "outdir" and name in r["out"]:
                 pass
+        elif kind == "refused":
+            why = extra[0]
+            written = [p for p in r["listing"] if not p.startswith("in/") and p != "out"]
+            if not r["raised"] or "ValueError" not in str(r["raised"]):
+                ctx.fail("%s: the run was not refused with a ValueError (entry point %s)" % (why, mode), {"opts": opts}, r["raised"], label="impl")
+            if written or (why == "out_is_file" and r["out"].get("<the pre-existing output file>") != "KEEP ME\n"):
+                ctx.fail("%s: something was written or an existing file was changed (entry point %s)" % (why, mode), {"opts": opts}, {"listing": r["listing"], "out": r["out"]}, label="impl")
         elif kind == "single-outdir":
             stray = [p for p in r["listing"] if not p.startswith("in/")]
             if stray or r["out"]:
